@@ -21,8 +21,8 @@ Open Scope N_scope.
 Definition DASH : N := 45.
 Definition EQ : N := 61.
 Definition is_empty (s : bytes) : bool := match s with [] => true | _ => false end.
-Definition is_stdio (s : bytes) : bool := match s with [45] => true | _ => false end.
-Definition is_escape (s : bytes) : bool := match s with [45; 45] => true | _ => false end.
+Definition is_stdio (s : bytes) : bool := match s with [b] => b =? DASH | _ => false end.
+Definition is_escape (s : bytes) : bool := match s with [a; b] => (a =? DASH) && (b =? DASH) | _ => false end.
 Definition is_none {A} (o : option A) : bool := match o with None => true | Some _ => false end.
 
 (** [remainder.split_once("=")] *)
@@ -35,18 +35,21 @@ Fixpoint split_eq (r : bytes) : bytes * option bytes :=
 (** [ParsedArg::to_long]: [Some (flag, flag is UTF-8, value)]; [--] alone is the escape, not a long *)
 Definition to_long (s : bytes) : option (bytes * bool * option bytes) :=
   match s with
-  | 45 :: 45 :: r =>
-      match r with
-      | [] => None
-      | _ => let '(f, v) := split_eq r in Some (f, utf8_valid f, v)
-      end
+  | a :: b :: r =>
+      if (a =? DASH) && (b =? DASH) then
+        match r with
+        | [] => None
+        | _ => let '(f, v) := split_eq r in Some (f, utf8_valid f, v)
+        end
+      else None
   | _ => None
   end.
 
 (** [ParsedArg::to_short]: the bytes handed to [ShortFlags::new] *)
 Definition to_short (s : bytes) : option bytes :=
   match s with
-  | 45 :: r => match r with [] => None | 45 :: _ => None | _ => Some r end
+  | a :: r => if a =? DASH then match r with [] => None | b :: _ => if b =? DASH then None else Some r end
+              else None
   | _ => None
   end.
 
@@ -125,30 +128,32 @@ Definition build_self_x (c : cmd) : cmd :=
 Inductive bres := BOk (c : cmd) | BInvalid | BFuel.
 
 (** [_build_recursive(true)]; [assert_app] runs at the end of every [_build_self] (debug build).
-    The Rust recursion is structural on the mutated tree; the model is given fuel. *)
+    The Rust recursion is structural on the mutated tree; the model is given fuel.
+    [build_list rec] = the loop over [get_subcommands_mut]; [build_node] = one level. *)
+Definition build_list (rec : cmd -> bres) : list cmd -> option (option (list cmd)) :=
+  fix go (l : list cmd) : option (option (list cmd)) :=
+    match l with
+    | [] => Some (Some [])
+    | s :: t =>
+        match rec s with
+        | BOk s' => match go t with
+                    | Some (Some t') => Some (Some (s' :: t'))
+                    | other => other end
+        | BInvalid => Some None
+        | BFuel => None
+        end
+    end.
+Definition build_node (rec : cmd -> bres) (c : cmd) : bres :=
+  if negb (assert_app c) then BInvalid
+  else match build_list rec (c_subs c) with
+       | Some (Some subs) => BOk (c <| c_subs := subs |>)
+       | Some None => BInvalid
+       | None => BFuel
+       end.
 Fixpoint build_full (fuel : nat) (c : cmd) : bres :=
   match fuel with
   | O => BFuel
-  | S f =>
-      let c := build_self_x c in
-      if negb (assert_app c) then BInvalid
-      else
-        match (fix go (l : list cmd) : option (option (list cmd)) :=
-                 match l with
-                 | [] => Some (Some [])
-                 | s :: t =>
-                     match build_full f s with
-                     | BOk s' => match go t with
-                                 | Some (Some t') => Some (Some (s' :: t'))
-                                 | other => other end
-                     | BInvalid => Some None
-                     | BFuel => None
-                     end
-                 end) (c_subs c) with
-        | Some (Some subs) => BOk (c <| c_subs := subs |>)
-        | Some None => BInvalid
-        | None => BFuel
-        end
+  | S f => build_node (build_full f) (build_self_x c)
   end.
 
 (** enough for [build_full]: every level of the tree is built with one unit, the expanded help
@@ -312,7 +317,9 @@ Inductive sfres := SFPanic | SFFuel | SFOk (leading : bytes) (opt : option arg) 
 Definition find_short_visible (c : cmd) (ch : N) : option arg :=
   List.find (fun a => match get_short_and_visible_aliases a with
                       | Some shorts => existsb (N.eqb ch) shorts
-                      | None => false end) (c_args c).
+                      | None => false end
+                      (* hidden short aliases are accepted by the parser too (fix 8ab1e69) *)
+                      || existsb (N.eqb ch) (map fst (a_short_aliases a))) (c_args c).
 Fixpoint parse_shortflags_loop (fuel : nat) (c : cmd) (short leading : bytes) : sfres :=
   match fuel with
   | O => SFFuel
@@ -375,7 +382,7 @@ Definition complete_option (tbl : pvtable) (arg : bytes) (c : cmd) : cres :=
               | SFOk leading (Some o) short' =>
                   let '(has_equal, short'') :=
                     match next_flag short' with
-                    | Some (FOk 61, s2) => (true, s2)
+                    | Some (FOk ch, s2) => if ch =? EQ then (true, s2) else (false, short')
                     | _ => (false, short')
                     end in
                   let value := match next_value_os short'' with Some v => v | None => [] end in
@@ -474,13 +481,17 @@ Definition pos_allows_hyphen (c : cmd) (pos_index : N) : bool :=
   match find_pos c pos_index with Some p => a_hyphen p | None => false end.
 Definition opt_allows_hyphen (st : pstate) (arg : bytes) : bool :=
   match arg with
-  | 45 :: _ => match st with Opt o _ => a_hyphen o | _ => false end
+  | b :: _ => (b =? DASH) && match st with Opt o _ => a_hyphen o | _ => false end
   | _ => false
   end.
 Definition find_long_visible (c : cmd) (flag : bytes) : option arg :=
   List.find (fun a => match get_long_and_visible_aliases a with
                       | Some longs => existsb (beq flag) longs
-                      | None => false end) (c_args c).
+                      | None => false end
+                      (* hidden aliases are accepted by the parser too (fix 8ab1e69) *)
+                      || match get_aliases a with
+                         | Some longs => existsb (beq flag) longs
+                         | None => false end) (c_args c).
 
 (** the [while let Some(arg) = raw_args.next(&mut cursor)] loop of [complete] up to the point
     where the cursor reaches the target: where the shadow parse stands when [complete_arg] is called *)
